@@ -10,6 +10,7 @@ Import ListNotations.
 Local Open Scope list_scope.
 
 Module AP := OV.Autocast.AutocastProofs.
+Set Default Timeout 40.
 
 (* ------------------------------------------------------------------ first binding wins (builder) *)
 Section FirstWins.
@@ -426,10 +427,13 @@ Proof.
 Qed.
 
 (* every schema the builder can look up satisfies the hypothesis of the theorems above *)
-Theorem schema_at_ok : forall name opset s, schema_at name opset = Some s -> A.schema_okb s = true.
+Theorem schema_at_ok : forall name opset s,
+  find_schema name opset None OV.Gen.Schemas.all = Some s -> A.schema_okb s = true.
 Proof.
-  intros name opset s H. unfold schema_at in H. apply find_schema_in in H. destruct H as [H|H]; [discriminate|].
-  apply AP.registry_schema_ok; exact H.
+  intros name opset s H.
+  destruct (find_schema_in name opset OV.Gen.Schemas.all None s H) as [H'|H'].
+  - discriminate H'.
+  - exact (AP.registry_schema_ok s H').
 Qed.
 
 (* ------------------------------------------------------------------ non-vacuity *)
@@ -514,5 +518,5 @@ Example ex_typed_trace_hyps :
   every_calls derived ex_lit_trace /\ cf_hypsb bcfg_fixed ["x0"; "x1"; "x2"; "x3"; "x4"; "x5"] ex_lit_trace = true.
 Proof.
   split; [|vm_compute; reflexivity].
-  cbn [ex_lit_trace every_calls every_call]. repeat split. apply ex_derived.
+  cbn [ex_lit_trace every_calls every_call]. split; [split; [apply ex_derived|exact I]|exact I].
 Qed.
